@@ -204,6 +204,11 @@ func (te *tableEval) evalArray(al *ssa.Alloc, fn *ssa.Function) (TVal, error) {
 				return TVal{}, fmt.Errorf("%s: literal sliced under control flow", te.p.pos(r.Pos()))
 			}
 		case *ssa.DebugRef:
+		case *ssa.UnOp:
+			// the whole array read as a value (range over an array literal): a copy, nothing can write through it
+			if r.Op != token.MUL {
+				return TVal{}, fmt.Errorf("%s: table literal backing array used by %T", te.p.pos(al.Pos()), r)
+			}
 		default:
 			return TVal{}, fmt.Errorf("%s: table literal backing array used by %T", te.p.pos(al.Pos()), r)
 		}
